@@ -1,4 +1,4 @@
-import KoordVerif.Proofs.C01ExtHandlers
+import KoordVerif.Proofs.C01ExtExample
 /-
 C01 — elastic-quota used/request accounting is exact over any event history.
 
@@ -30,8 +30,10 @@ Theorems (all for arbitrary states / trees / amounts / histories, no size bound)
   the root group; the touched group declares the dimension (the property fixes one shared dimension set);
   the old pod object handed to a handler is the one delivered last (informer consistency);
   MigratePod is called for a cached pod and a target that does not hold it.
-NOT proved: `delta_commute` as a Lean theorem (interleavings of two path-locked propagations); it is a corollary
-of T1 + T2 up to the order of cache lists, not formalised.  Concurrency inside a handler is outside the model.
+  T6 `delta_commute_sections`, `section_preserves_invariant`, `interleaving_*`, `handlers_interleaving_*`:
+     the SCHEDULES quantifier — pod handlers on distinct pods interleaved at the granularity of their separately
+     locked sections (see the section "SCHEDULES" below).  Not covered: two handlers for the SAME pod in flight at
+     once (the informer delivers the events of one pod in order), the Go memory model / sync.RWMutex (trusted).
 -/
 namespace KoordVerif.C01
 
@@ -230,18 +232,34 @@ theorem interleaving_equals_sequential {s0 : State} {pool0 : Pool} (hg : Good s0
     (∀ m j, entry s m j = entry (runThreads s0 pool0) m j) :=
   interleaving_serializable hg hn hsafe hs hq
 
-/-- OnPodAdd: its sections run one after the other ARE the atomic model step, and under the pod precondition of
-the sequential theorem the plan is safe -/
-theorem onPodAdd_sections {s : State} {n : Nat} {p : PodObj} (hpre : PodPre s n p) :
-    runMicros s (planAdd s n p) = step s (.podAdd n p) ∧
-    Safe (stat s) p.id (localOf s (cntOf s) p.id) (planAdd s n p) :=
-  ⟨run_planAdd s n p, safe_planAdd hpre⟩
+/-- OnPodAdd / OnPodDelete / OnPodUpdate (every branch): the sections of the handler (`PodEv.plan`, in the order
+of the Go code) run one after the other ARE the atomic model step, and under the precondition of the sequential
+theorem (`PodPre` / `UpdPre`) the plan is safe. -/
+theorem handler_sections {s : State} {ev : PodEv} (hg : Good s) (hpre : ev.Pre s) :
+    runMicros s (ev.plan s) = step s ev.op ∧ Safe (stat s) ev.id (localOf s (cntOf s) ev.id) (ev.plan s) :=
+  ⟨PodEv.run_plan hg.pods ev (PodEv.wf_of_pre hpre), PodEv.safe hpre⟩
 
-/-- OnPodDelete likewise -/
-theorem onPodDelete_sections {s : State} {n : Nat} {p : PodObj} (hg : Good s) (hpre : PodPre s n p) :
-    runMicros s (planDelete s n p) = step s (.podDelete n p) ∧
-    Safe (stat s) p.id (localOf s (cntOf s) p.id) (planDelete s n p) :=
-  ⟨run_planDelete s n p, safe_planDelete hg hpre⟩
+/-- SCHEDULES, handler level: pod events (add / update / delete, any branch) on DISTINCT pods, each admissible in
+the start state, issued from concurrent goroutines.  Whatever way the separately locked sections of their handlers
+interleave, once every handler has finished the state satisfies `LocalInv` and every group reports exactly the
+figures of the ATOMIC model run on the same events one after the other (`run s0 ops`, the object of T1–T5), with
+the same cache entries (only the order inside a cache list may differ). -/
+theorem handlers_interleaving_exact {s0 : State} {evs : List PodEv} (hg : Good s0) (hn : (evs.map PodEv.id).Nodup)
+    (hpre : ∀ ev ∈ evs, ev.Pre s0)
+    {s : State} {pool : Pool} (hs : PSteps (s0, evs.map (thr s0)) (s, pool)) (hq : Quiescent pool) :
+    Good s ∧ LocalInv s ∧
+    (∀ m q q', get? s m = some q → get? (run s0 (evs.map PodEv.op)) m = some q' → aggs q = aggs q') ∧
+    (∀ m j, entry s m j = entry (run s0 (evs.map PodEv.op)) m j) :=
+  handlers_serializable hg hn hpre hs hq
+
+/-- …and BETWEEN any two sections of such an interleaving the section invariant holds (every tree equation; the
+pods without a handler in flight settled) and no figure of any group is negative. -/
+theorem handlers_interleaving_between {s0 : State} {evs : List PodEv} (hg : Good s0) (hn : (evs.map PodEv.id).Nodup)
+    (hpre : ∀ ev ∈ evs, ev.Pre s0)
+    {s : State} {pool : Pool} (hs : PSteps (s0, evs.map (thr s0)) (s, pool)) :
+    ∃ c, CI s c ∧ (∀ j, j ∉ pool.map (·.1) → ∀ m, Settled s c m j) ∧
+      ∀ m q, get? s m = some q → RNonneg q ∧ UNonneg q :=
+  handlers_between hg hn hpre hs
 
 /-! ### dimension-wise decomposition -/
 
@@ -322,5 +340,34 @@ example : LocalInv (run init exOps2) := (history_exact exOps2 (by
     simp only [get?, emptyQuota, if_true, Option.some.injEq] at hq
     subst hq
     exact ⟨rfl, fun e he => by simp [getPod] at he⟩)).2
+
+/-- SCHEDULES, non-vacuity: the hypotheses of `handlers_interleaving_exact` hold for a NON-sequential interleaving
+(Proofs/C01ExtExample.lean `cx_steps`: 2.cacheAdd, 1.cacheAdd, 1.req, 2.req, 1.setAsg, 1.used) of two OnPodAdd handlers
+on the quota of `exS1`; the theorem then gives the local equations for the state that interleaving ends in. -/
+example : LocalInv cxFinal := by
+  have hp : PreAllF init [.quota ⟨2, 1, false, true, 10, 0⟩] := by
+    refine ⟨⟨by decide, by decide, ?_⟩, trivial⟩
+    show (∀ c ∈ init, c.parent ≠ 2) ∧ Topo (emptyQuota 2 1 false true :: init)
+    exact ⟨by decide, ex_topo⟩
+  have hg : Good cxS := (history_exact _ hp).1
+  have hpod : ∀ p : PodObj, 0 ≤ p.req → PodPre cxS 2 p := by
+    intro p hp0
+    show PodPre exS1 2 p
+    rw [exS1_eq]
+    refine ⟨hp0, fun q hq => ?_⟩
+    simp only [get?, emptyQuota, if_true, Option.some.injEq] at hq
+    subst hq
+    exact ⟨rfl, fun e he => by simp [getPod] at he⟩
+  have hpre : ∀ ev ∈ cxEvs, ev.Pre cxS := by
+    intro ev hev
+    simp only [cxEvs, List.mem_cons, List.not_mem_nil, or_false] at hev
+    rcases hev with rfl | rfl
+    · exact hpod cxP1 (by decide)
+    · exact hpod cxP2 (by decide)
+  have hq : Quiescent [(1, []), (2, [])] := by
+    intro th hth
+    simp only [List.mem_cons, List.not_mem_nil, or_false] at hth
+    rcases hth with rfl | rfl <;> rfl
+  exact (handlers_interleaving_exact hg (by decide) hpre cx_steps hq).2.1
 
 end KoordVerif.C01
